@@ -293,6 +293,8 @@ def _same(a: Any, b: Any) -> bool:
 
 def f_uniq(left: Any, key: Any, lam: Lam | None) -> list[Any]:
     items = seq_of(left, what="uniq")
+    if key is UNDEF and lam is None:
+        raise Undoc("uniq: undefined key argument")  # the CTS shows it for sort / sort_natural / map only
     kf = _keyfn("uniq", key, lam)
     if kf is not None:
         absent = [isinstance(it, dict) and (lam(it, i) is UNDEF if lam is not None else key not in it) for i, it in enumerate(items)]
@@ -320,6 +322,8 @@ def f_uniq(left: Any, key: Any, lam: Lam | None) -> list[Any]:
 
 def f_compact(left: Any, key: Any, lam: Lam | None) -> list[Any]:
     items = seq_of(left, what="compact")
+    if key is UNDEF and lam is None:
+        raise Undoc("compact: undefined key argument")
     kf = _keyfn("compact", key, lam)
     if any(it is UNDEF for it in items):
         raise Undoc("compact: undefined (not nil) item")
@@ -496,7 +500,9 @@ def f_slice(left: Any, pos: list[Any]) -> Any:
     v = _plain(left)
     start = _int_arg(pos[0], "slice start")
     length = 1
-    if len(pos) > 1 and not is_nil(pos[1]):
+    if len(pos) > 1:
+        if is_nil(pos[1]):
+            raise Undoc("slice: explicit nil length")
         length = _int_arg(pos[1], "slice length")
     if is_nil(v):
         return ""
